@@ -4,6 +4,7 @@ package sim
 
 import (
 	"runtime"
+	"time"
 	"unsafe"
 )
 
@@ -18,3 +19,22 @@ var ioSync uint64
 
 func raceAcquire(p *uint64)      { runtime.RaceAcquire(unsafe.Pointer(p)) }
 func raceReleaseMerge(p *uint64) { runtime.RaceReleaseMerge(unsafe.Pointer(p)) }
+
+// quietTimer creates a timer whose creation is not a release: the runtime
+// models a timer as "created happens-before fired" and collects what fired
+// timers carry in a per-P context that every goroutine started or woken by a
+// later timer inherits (context deadlines!). The driver's clock contains
+// everybody's history (synctest.Wait acquires it), so its wake-up timers
+// would order everything that happens after them.
+func init() {
+	// time.NewTimer consults a lazily initialised GODEBUG setting (sync.Once):
+	// have that done before any timer is created with synchronisation ignored
+	time.NewTimer(time.Hour).Stop()
+}
+
+func quietTimer(d time.Duration) *time.Timer {
+	runtime.RaceDisable()
+	t := time.NewTimer(d)
+	runtime.RaceEnable()
+	return t
+}
